@@ -220,6 +220,8 @@ main(int argc, char **argv)
 		printf("namespace XzVerif.Gen.C19\n\n");
 		c19_probe_tables(stdout);
 		c19_probe_exit(stdout);
+		printf("/-- `IO_BUFFER_SIZE` (src/xz/file_io.h): the unit in which io_write() looks for all-zero buffers -/\n"
+			"def ioBufferSize : Nat := %u\n\n", (unsigned)IO_BUFFER_SIZE);
 		fflush(stdout);
 		c19_probe_files(stdout, argv[2]);
 		printf("end XzVerif.Gen.C19\n");
